@@ -222,9 +222,17 @@ class Result:
 
 
 def load_known_findings(prop):
-    path = os.path.join(VERIF, "known_findings.json")
-    if not os.path.exists(path):
-        return {}
-    with open(path) as f:
-        data = json.load(f)
-    return {e["id"]: e for e in data.get("findings", []) if e["property"] == prop and e["status"] == "open"}
+    paths = [os.path.join(VERIF, "known_findings.json")]
+    d = os.path.join(VERIF, "known_findings.d")      # fragments awaiting a merge into the main file
+    if os.path.isdir(d):
+        paths += [os.path.join(d, f) for f in sorted(os.listdir(d)) if f.endswith(".json")]
+    out = {}
+    for path in paths:
+        if not os.path.exists(path):
+            continue
+        with open(path) as f:
+            data = json.load(f)
+        for e in data.get("findings", []):
+            if e["property"] == prop and e["status"] == "open":
+                out[e["id"]] = e
+    return out
